@@ -166,6 +166,47 @@ func facts(repo string) (string, error) {
 	fmt.Fprintf(&b, "/-- `saltHeader := make([]byte, %s)` -/\ndef headerBufLen : Nat := %d\n", bufLen, bufN)
 	fmt.Fprintf(&b, "/-- the call that fills `saltHeader` in DecryptStreamTo: `%s` -/\ndef headerReadCall : String := %s\n", str(callExpr), strconv.Quote(call))
 	fmt.Fprintf(&b, "def headerRead : Golib.C09.HeaderRead := .%s\n", mode)
+	// the decode wrappers of strz/enc.go that Decrypt / GCMDecrypt call: their statements, verbatim
+	// (the Lean model `base64DecodeW` / `hexDecodeW` mirrors exactly these three statements each)
+	fe, err := parser.ParseFile(fset, filepath.Join(repo, "strz", "enc.go"), nil, 0)
+	if err != nil {
+		return "", err
+	}
+	bodyOf := func(file *ast.File, name string) string {
+		for _, d := range file.Decls {
+			fd, ok := d.(*ast.FuncDecl)
+			if !ok || fd.Name.Name != name || fd.Body == nil || fd.Recv != nil {
+				continue
+			}
+			var parts []string
+			for _, st := range fd.Body.List {
+				parts = append(parts, strings.Join(strings.Fields(str(st)), " "))
+			}
+			return strings.Join(parts, "; ")
+		}
+		return "<not found>"
+	}
+	fmt.Fprintf(&b, "/-- body of strz.Base64Decode -/\ndef base64DecodeBody : String := %s\n", strconv.Quote(bodyOf(fe, "Base64Decode")))
+	fmt.Fprintf(&b, "/-- body of strz.HexDecode -/\ndef hexDecodeBody : String := %s\n", strconv.Quote(bodyOf(fe, "HexDecode")))
+	// … and how crypt.go calls them
+	callIn := func(fn, callee string) string {
+		res := "<not found>"
+		for _, d := range f.Decls {
+			fd, ok := d.(*ast.FuncDecl)
+			if !ok || fd.Name.Name != fn || fd.Body == nil {
+				continue
+			}
+			ast.Inspect(fd.Body, func(n ast.Node) bool {
+				if ce, ok := n.(*ast.CallExpr); ok && str(ce.Fun) == callee {
+					res = strings.Join(strings.Fields(str(ce)), " ")
+				}
+				return true
+			})
+		}
+		return res
+	}
+	fmt.Fprintf(&b, "def decryptDecodeCall : String := %s\n", strconv.Quote(callIn("Decrypt", "strz.Base64Decode")))
+	fmt.Fprintf(&b, "def gcmDecryptDecodeCall : String := %s\n", strconv.Quote(callIn("GCMDecrypt", "strz.HexDecode")))
 	b.WriteString("\nend Golib.Gen.C09\n")
 	return b.String(), nil
 }
